@@ -144,3 +144,68 @@ pub fn capacity<S: Src>(s: &mut S) {
         chk!(s, good, "C12: capacity limit / reported figures wrong on ATmega48 for the same usage-to-capacity relation");
     }
 }
+
+/// `.device` selection through the real `Directive::parse` and the real device table:
+/// the first selection installs the table row, a second selection (same part, a part with an
+/// identical row, or a different part) is an error, an unknown part is an error.
+pub fn device_select<S: Src>(s: &mut S) {
+    let pair = s.below(4);
+    crate::split!(pair, 0, 4, |p| device_select_pair(s, p));
+}
+
+fn device_select_pair<S: Src>(s: &mut S, pair: u8) {
+    use avra_lib::directive::{Directive, DirectiveOps, Operand};
+    use avra_lib::expr::Expr;
+    use avra_lib::parser::{CodePoint, ParseContext};
+    s.role(H_C12_CAP, 10 + pair as u32);
+    let (first, second): (&str, &str) = match pair {
+        0 => ("ATmega48", "ATmega48"),
+        1 => ("ATtiny13", "ATtiny13A"),
+        2 => ("ATmega48", "ATmega8"),
+        _ => ("NoSuchPart", "ATmega48"),
+    };
+    let common = CommonContext::new();
+    let ctx = ParseContext::new(
+        std::path::PathBuf::new(),
+        std::cell::RefCell::new(avra_lib::vmap::BTreeSet::new()),
+        common,
+    );
+    let ops = |n: &str| DirectiveOps::OpList(vec![Operand::E(Expr::Ident(String::from(n)))]);
+    let o1 = ops(first);
+    let o2 = ops(second);
+    let r1 = Directive::Device.parse(&o1, &ctx, CodePoint { line_num: 1, num: 2 });
+    let selected = avra_lib::context::Context::get_device(&ctx.common_context);
+    let r2 = Directive::Device.parse(&o2, &ctx, CodePoint { line_num: 2, num: 2 });
+    cov!(r1.is_ok(), "!first selection accepted");
+    #[cfg(not(kani))]
+    {
+        s.note_s("first", first);
+        s.note_s("second", second);
+        s.note_s("r1", &format!("{:?}", r1.as_ref().map(|_| ()).map_err(|e| e.to_string())));
+        s.note_s("r2", &format!("{:?}", r2.as_ref().map(|_| ()).map_err(|e| e.to_string())));
+        let src = format!(".device {}\n.device {}\n", first, second);
+        let api = avra_lib::builder::build_str(&src);
+        s.note_s("api", &format!("{:?} -> ok={}", src, api.is_ok()));
+        if api.is_ok() { println!("API-CONFIRMED") } else { println!("API-NOT-CONFIRMED") }
+    }
+    if pair == 3 {
+        chk!(s, r1.is_err(), "C12: selecting an unknown device was accepted");
+    } else {
+        chk!(s, r1.is_ok(), "C12: selecting a known device failed");
+        chk!(s, r2.is_err(), "C12: a second device selection was accepted");
+        if pair == 0 || pair == 2 {
+            // ATmega48: 2048 words flash, RAM 0x100 + 512, 256 bytes EEPROM
+            chk!(
+                s,
+                selected.flash_size == 2048 && selected.ram_start == 0x100 && selected.ram_size == 512 && selected.eeprom_size == 256,
+                "C12: selected device does not carry the table row's figures"
+            );
+        }
+    }
+    core::mem::forget(r1);
+    core::mem::forget(r2);
+    core::mem::forget(selected);
+    core::mem::forget(ctx);
+    core::mem::forget(o1);
+    core::mem::forget(o2);
+}
